@@ -557,6 +557,16 @@ theorem C11_nwt_one_step (sz : Item → Nat) (told pos : Nat) (s : Step) (r : Li
 example : nwtRead (turn none (fun _ => 1) 0 4 [⟨[], .emit ⟨0, 0, []⟩, []⟩, ⟨[], .finish, []⟩]) = some (⟨0, 0, []⟩, some 5) := by
   decide
 
+/-! ### token age across workers -/
+
+/-- **clock skew between workers does not expire a token**: a token is refused for its age only when it is OLDER than the
+ttl — in particular never when the serving worker's clock is behind the minting worker's (negative age) -/
+theorem token_age_tolerates_skew (age : Int) (ttl : Nat) :
+    Gen.C11.tokenRefusedByAge age ttl = true ↔ age > (ttl : Int) := by
+  simp [Gen.C11.tokenRefusedByAge]
+
+example : Gen.C11.tokenRefusedByAge (-3) 3600 = false ∧ Gen.C11.tokenRefusedByAge 3601 3600 = true := by decide
+
 /-! ### resume blob -/
 
 /-- **C11 resume token round trip**, for ALL byte strings whose length fits the prefix; a `None` call token and an empty
